@@ -409,7 +409,9 @@ func (s *Sim) Authorize(a AuthzReq) *Grant {
 		red = ""
 	}
 	for k, v := range a.Extra {
-		q[k] = v
+		if !strings.HasPrefix(k, "_") { // "_"-keys are notes for the harness (e.g. the PKCE verifier), never sent
+			q[k] = v
+		}
 	}
 	sub := a.Subject
 	if sub == "" {
